@@ -7,7 +7,8 @@ import oracle
 from common import cx, crash_result
 from drive import Result
 
-RULE = ("Hypothesis generates polynomials A, B, C over M<=5 modes: 1-4 monomials each, every monomial a product of 0-6 creation/annihilation "
+RULE = ("Exhaustive part: every ordered pair of monomials of length <=4/3/2 over 1/2/3 modes (thorough: also <=2 over 4 modes and <=4 over 2 modes) - product, "
+        "equality and commutation predicates.  Random part: Hypothesis generates polynomials A, B, C over M<=5 modes: 1-4 monomials each, every monomial a product of 0-6 creation/annihilation "
         "operators in arbitrary order, coefficients from {0,+-1/4,+-1/2,+-1,+-2} (complex in the complex build), sometimes B a re-written form "
         "of A (permuted factors with the fermionic sign, split coefficients) so that equality holds non-trivially.  For A*B, (A*B)*C, A*(B*C), "
         "A+B, A-B, -A, scalar multiples, A+-x, x-A, [A,B], {A,B}, {c_i,c+_j} the matrix obtained from pomerol (both from the returned "
@@ -101,15 +102,80 @@ def from_actright(Mm, ans):
     return m, m2
 
 
+def all_monomials(Mm, maxlen):
+    ops = [(d, i) for d in (0, 1) for i in range(Mm)]
+    out = [[]]
+    level = [[]]
+    for _ in range(maxlen):
+        level = [m + [list(o)] for m in level for o in ops]
+        out += level
+    return out
+
+
+def exhaustive_case(ctx, Mm, maxlen, flavour="real"):
+    """every ordered pair of monomials of length <= maxlen over Mm modes: product, commutator, equality and commutation predicates"""
+    monos = all_monomials(Mm, maxlen)
+    sc = M.Scenario()
+    for k, m in enumerate(monos):
+        sc.add(M.poly_line("alg set m%d" % k, [[[1.0, 0.0], m]], by_label=False))
+    pairs = [(a, b) for a in range(len(monos)) for b in range(len(monos))]
+    for a, b in pairs:
+        sc.add("alg mul P m%d m%d" % (a, b), ("mul", a, b))
+        sc.add("alg matrix P %d" % Mm, ("mat", a, b))
+        sc.add("alg eq m%d m%d" % (a, b), ("eq", a, b))
+        sc.add("alg commutes m%d m%d" % (a, b), ("com", a, b))
+    ans = ctx.run(flavour, sc, timeout=600)
+    if ans.died:
+        return "runner died: %s %s" % (ans.died, ans.stderr[-500:]), len(pairs)
+    mats = [oracle.polynomial_matrix(Mm, [(1.0, [(d, i) for d, i in m])]) for m in monos]
+    for a, b in pairs:
+        W = mats[a] @ mats[b]
+        r = ans.get(("mul", a, b)); rm = ans.get(("mat", a, b))
+        if r is None or "exc" in r or rm is None or "exc" in rm:
+            return "product of %r and %r threw" % (monos[a], monos[b]), len(pairs)
+        if np.abs(from_monomials(Mm, r) - W).max() > 1e-12:
+            return "product %r * %r: normal-ordered result differs from the Jordan-Wigner product" % (monos[a], monos[b]), len(pairs)
+        Ma, Mb = from_actright(Mm, rm)
+        if np.abs(Ma - W).max() > 1e-12 or np.abs(Mb - W).max() > 1e-12:
+            return "product %r * %r: actRight / getMatrixElement differ from the Jordan-Wigner product" % (monos[a], monos[b]), len(pairs)
+        meq = np.abs(mats[a] - mats[b]).max() < 1e-12
+        if bool(ans.get(("eq", a, b))["eq"]) != bool(meq):
+            return "%r == %r is %s but the matrices are %s" % (monos[a], monos[b], ans.get(("eq", a, b))["eq"], "equal" if meq else "different"), len(pairs)
+        mcomm = np.abs(W - mats[b] @ mats[a]).max() < 1e-12
+        if bool(ans.get(("com", a, b))["commutes"]) != bool(mcomm):
+            return "%r commutes with %r is %s but the matrices %s" % (monos[a], monos[b], ans.get(("com", a, b))["commutes"], "commute" if mcomm else "do not"), len(pairs)
+    return None, len(pairs)
+
+
+EXHAUSTIVE = {"quick": [(1, 4), (2, 3), (3, 2)], "thorough": [(1, 5), (2, 3), (3, 2), (4, 2), (2, 4)]}
+
+
 def pre_campaign(tier, seed):
-    """thorough tier: libFuzzer campaign on the in-process algebra target with its own bit-string oracle (engine/fuzz/fuzz_algebra.cpp)"""
-    if tier != "thorough":
-        return None
+    """exhaustive sub-space (all pairs of short monomials over few modes); thorough tier: in addition a libFuzzer campaign on the
+    in-process algebra target with its own bit-string oracle (engine/fuzz/fuzz_algebra.cpp)"""
     import drive
+    ctx = drive.Ctx(tier, seed, 99)
+    failures = []; rows = []; total = 0; hashes = []
+    try:
+        for Mm, maxlen in EXHAUSTIVE[tier]:
+            msg, npairs = exhaustive_case(ctx, Mm, maxlen)
+            total += npairs
+            rows.append({"modes": Mm, "max_monomial_length": maxlen, "ordered_pairs": npairs, "ok": msg is None})
+            case = {"kind": "exhaustive", "M": Mm, "maxlen": maxlen}
+            if msg is not None:
+                failures.append({"case": case, "detail": {"what": msg}, "signature": "exhaustive"})
+            hashes.append(M.case_hash(case))
+    finally:
+        ctx.close()
+    cov = {"exhaustive_subspace": {"exhaustive": True, "what": "all ordered pairs of monomials up to the given length over the given number of modes: product (normal-ordered form, actRight, getMatrixElement), equality and commutation predicates against Jordan-Wigner matrices", "configurations": rows}}
+    if tier != "thorough":
+        return {"failures": failures, "coverage": cov, "evaluations": total, "nontrivial_hashes": hashes, "classes": {"exhaustive-pairs": total}}
     stats, crashes = drive.run_fuzzer("fuzz_algebra", seed, 600, workers=12, max_len=96)
-    failures = [{"case": {"kind": "fuzz-bytes", "target": "fuzz_algebra", "hex": c.hex()}, "detail": {"what": "libFuzzer algebra target trapped (oracle violation or sanitizer report)"},
-                 "signature": "fuzz-crash"} for c in crashes[:1]]
-    return {"failures": failures, "coverage": {"libfuzzer": stats}, "evaluations": stats["executions"], "nontrivial_hashes": [], "classes": {"libfuzzer-executions": stats["executions"]}}
+    failures += [{"case": {"kind": "fuzz-bytes", "target": "fuzz_algebra", "hex": c.hex()}, "detail": {"what": "libFuzzer algebra target trapped (oracle violation or sanitizer report)"},
+                  "signature": "fuzz-crash"} for c in crashes[:1]]
+    cov["libfuzzer"] = stats
+    return {"failures": failures, "coverage": cov, "evaluations": total + stats["executions"], "nontrivial_hashes": hashes,
+            "classes": {"exhaustive-pairs": total, "libfuzzer-executions": stats["executions"]}}
 
 
 def execute(case, ctx):
@@ -119,6 +185,11 @@ def execute(case, ctx):
         if crashed:
             return Result("fail", ["fuzz"], True, {"what": "libFuzzer artifact reproduces", "stderr": err}, "fuzz-crash")
         return Result("ok", ["fuzz"], False)
+    if case.get("kind") == "exhaustive":
+        msg, npairs = exhaustive_case(ctx, case["M"], case["maxlen"])
+        if msg is not None:
+            return Result("fail", ["exhaustive"], True, {"what": msg, "config": [case["M"], case["maxlen"]]}, "exhaustive")
+        return Result("ok", ["exhaustive"], True)
     Mm = case["M"]; cplx = case["cplx"]
     sc = M.Scenario()
     x = case["x"] if cplx else [case["x"][0], 0.0]
